@@ -95,6 +95,48 @@ def is_len_of(e):
     return None
 
 
+_SPLITS = ("split", "splitn", "rsplit", "rsplitn", "split_inclusive", "chunks", "rchunks", "windows", "chunks_exact", "split_mut")
+
+
+def split_piece_root(expand, e, depth=0):
+    """Y when `e` is an item of `Y.split..(..)`: next() / next_back() / last() of the iterator, unwrapped by `?`, a match or
+    unwrap; the iterator variable is followed to its (single) definition"""
+    e = sym.norm(e)
+    for _ in range(10):
+        if e[0] in ("ref", "deref") and len(e) > 1 and isinstance(e[1], tuple):
+            e = sym.norm(e[1])
+        elif e[0] == "field" and str(e[2]) == "0" and isinstance(e[1], tuple):
+            e = sym.norm(e[1])
+        elif e[0] == "downcast":
+            e = sym.norm(e[1])
+        elif e[0] == "call" and e[1].endswith("Try::branch") and e[3]:
+            e = sym.norm(e[3][0])
+        elif e[0] == "call" and e[1].split("::")[-1] in ("unwrap", "expect", "unwrap_unchecked") and e[3]:
+            e = sym.norm(e[3][0])
+        elif e[0] == "var":
+            e2 = sym.norm(expand(e))
+            if e2 == e:
+                return None
+            e = e2
+        else:
+            break
+    if e[0] == "call" and e[1].split("::")[-1] in ("next", "next_back", "last", "nth") and e[3]:
+        it = sym.norm(e[3][0])
+        for _ in range(6):
+            if it[0] in ("ref", "deref", "addr") and len(it) > 1 and isinstance(it[-1], tuple):
+                it = sym.norm(it[-1])
+            elif it[0] == "var":
+                it2 = sym.norm(expand(it))
+                if it2 == it:
+                    return None
+                it = it2
+            else:
+                break
+        if it[0] == "call" and it[1].startswith("core::slice::") and it[1].split("::")[-1] in _SPLITS and it[3]:
+            return sym.norm(it[3][0])
+    return None
+
+
 def position_payload(e):
     """e is the index found by position()/rposition(): returns the call expression"""
     if e[0] == "field" and e[2] == "0" and e[1][0] == "downcast" and e[1][2] == "Some":
@@ -149,6 +191,14 @@ class Facts:
             if is_len_of(x) is not None or (x[0] == "call" and x[1].split("::")[-1] in ("count", "len")):
                 self.add(x, ZERO, 0)
                 self.add(ZERO, x, -ISIZE_MAX)
+            lx = is_len_of(x) if x[0] in ("call", "unop") else None
+            if lx is not None:
+                # a piece handed out by a split-family iterator over Y (split, splitn, rsplit, rsplitn, split_inclusive, chunks,
+                # windows ...) is a sub-slice of Y: no longer than Y
+                root = split_piece_root(self.expand, lx)
+                if root is not None:
+                    for l_ in self._len_atom_of(sym.norm(root)):
+                        self.add(l_, x, 0, "a piece yielded by a split of a slice is no longer than the slice")
             if x[0] == "call" and x[1].split("::")[-1] in ("from", "into") and "From<bool>" in str(x[2]):
                 # integer from bool: 0 or 1
                 self.atoms.add(x)
